@@ -169,7 +169,7 @@ class NormalizeContractionGenericTuple(Contract):
     reduction with a DIFFERENT reduction op, never removes a Number that is not the product's unit, and keeps operand
     order. structure bound: the enumerated op patterns x term shapes (<= 3 terms, one nested Contraction)."""
 
-    props = ("C02", "C08")
+    props = ("C02", "C08", "C03")
     file = "funsor/cnf.py"
     qualname = "normalize_contraction_generic_tuple"
     total = True
@@ -254,7 +254,7 @@ class SmallNormalizeRules(Contract):
     definitional right-hand side: a (op) b = Contraction(null, op, {}, a, b); reduce_V a = Contraction(op, null, V, a);
     Contraction(null, null, {}, t) = t; a - b = a + (-b); a / b = a * reciprocal(b); f(f^-1(x)) = x."""
 
-    props = ("C02", "C08")
+    props = ("C02", "C08", "C03")
     file = "funsor/cnf.py"
     qualname = "binary_to_contract"
     total = True
